@@ -258,6 +258,18 @@ def stepExpr (st : DState) (e : Sexp) : Option (DState × String) :=
     let toks := tokenize Generated.exprSpecials Generated.blanks s
     let (s0, inputs) := mkInputs n {}
     pure (st, finishTyped st.lang fx (parseExprToks st.plang (typedBuilder st.lang st.ops true) inputs s0 toks))
+  | .list [.atom "fixcase", .list bs, t, pl] => do
+    let bs ← bs.mapM (fun b => match b with
+      | .list [lo, hi] => some ((match lo with | .atom "-" => none | x => Sexp.nat? x), (match hi with | .atom "-" => none | x => Sexp.nat? x))
+      | _ => none)
+    let t ← Sexp.term? t
+    let pl ← boolOf pl
+    let σ : Store := bs.foldl (fun σ (b : Option Nat × Option Nat) =>
+      let (σ1, v) := newVar σ
+      setVar σ1 v { (getVar σ1 v) with lower := b.1, upper := b.2 }) {}
+    pure (st, match fix st.lang engineFuel σ t pl with
+      | .error e => "E:" ++ showErr e
+      | .ok (σ1, r) => "ok " ++ renderResult σ1 r)
   | .list [.atom "tcall", n, fx, t] => do
     let n ← Sexp.nat? n
     let fx ← boolOf fx
